@@ -4,7 +4,7 @@ from .. import gen_e2, monitors, ws
 class C03(E2Prop):
     id = 'C03'
     required_theorems = []
-    rule = ('socket histories: corpus first, then bounded-exhaustive op sequences (user ops x peer token per read x write pattern x tight/unlimited buffer) '
+    rule = ('socket histories: corpus first, then bounded-exhaustive op sequences (quick: all of length 2 + a sample of length 3; thorough: ALL of length <= 4 over {read, write text, write ping, write pong, flush, close, can_read, can_write} x 7 peer tokens per read x 3 write patterns x tight/unlimited buffer x flush/read tails x both roles) (user ops x peer token per read x write pattern x tight/unlimited buffer) '
             'and seeded random histories up to 60 ops; distinct by canonical trace, non-trivial = at least one transport event')
     level_text = 'close-handshake safety invariants proved over the Protocol model for all op lists and all transport oracles; model tied by differential histories'
     level_note = 'Trusted: Coq kernel, hand-written Protocol.v/Codec.v, correspondence generators; monitors are an independent second opinion'
@@ -12,6 +12,9 @@ class C03(E2Prop):
     def generate(self, tier, rng):
         cases = list(self.corpus())
         ex = gen_e2.exhaustive_histories('x', 2) + (gen_e2.exhaustive_histories('y', 3) if tier == 'thorough' else [])
+        if tier == 'thorough':
+            ex4 = gen_e2.exhaustive_histories('z', 4, wpats=('accept', 'wb2', 'wb4'), ptoks=['T', 'PI', 'C1000', 'C1005', 'CG', 'EOF', 'WB'])
+            ex += ex4          # complete: every op sequence of length 4 x every peer token per read x write pattern x buffer bound
         if tier == 'quick':
             ex3 = gen_e2.exhaustive_histories('y', 3)
             ex += rng.sample(ex3, min(len(ex3), 4000))
